@@ -826,6 +826,22 @@ impl SvgElement {
             || self.has_attr("dh")
             || self.has_attr("surround")
             || self.has_attr("inside")
+            || self.has_foreign_position()
+    }
+
+    /// True while the element still carries position attributes which are not native to its
+    /// kind (e.g. `cx` on a rect, `x` on a circle): they are folded into the native ones
+    /// when the position is resolved, until then the native ones do not locate the element.
+    fn has_foreign_position(&self) -> bool {
+        let foreign: &[&str] = match self.name.as_str() {
+            "rect" | "use" | "image" | "svg" | "foreignObject" => {
+                &["cx", "cy", "x1", "y1", "x2", "y2"]
+            }
+            "circle" | "ellipse" => &["x", "y", "x1", "y1", "x2", "y2"],
+            "line" => &["x", "y", "cx", "cy"],
+            _ => &[],
+        };
+        foreign.iter().any(|a| self.has_attr(a))
     }
 
     fn bbox_raw(&self) -> Result<Option<BoundingBox>> {
